@@ -242,6 +242,21 @@ def targeted_programs(dev):
                 {"op": "emit", "fn": "aspirate_well", "args": {"rack": "R", "pos": N(cls, 0), "vol": 10000}}]
     h["ops"] = ops
     progs.append(h)
+    # the multi-dispense count never exceeds what fits max_volume, whether auto_split is on or off
+    lws = [gen.mk_plate("plate", 2, 2, 0, 10, [0, 0, 0, 0])]
+    h = gen.header("emit/multidisp-nosplit", dev, Fraction(1), 950, lws, autosplit=False, flags={"comp": False, "norm": False, "robot": False})
+    h["ops"] = [{"op": "emit", "fn": "reagent_distribution",
+                 "args": {"srack": "S", "s1": I(1), "s2": I(8), "drack": "D", "d1": I(1), "d2": I(96), "vol": v * 1000, "md": I(md)}}
+                for v, md in ((400, 6), (300, 3), (300, 4), (100, 12), (950, 2), (475, 2), (476, 2))]
+    progs.append(h)
+    # volumes of many digits in R records, and volumes a hair above the largest one a record can carry
+    h = gen.header("emit/large-volumes", dev, Fraction(1), 8000000, lws, flags={"comp": False, "norm": False, "robot": False})
+    Rv = lambda vol: {"op": "emit", "fn": "reagent_distribution", "args": {"srack": "S", "s1": I(1), "s2": I(8), "drack": "D", "d1": I(1), "d2": I(2), "vol": vol, "md": I(1)}}
+    Wv = lambda fn, vol: {"op": "emit", "fn": fn, "args": {"rack": "R", "pos": I(1), "vol": vol}}
+    C = lambda c: {"cls": "cents", "v": c}
+    h["ops"] = [Rv(C(1234567)), Rv(C(123456780)), Rv(C(715827800)), Rv(C(715827850)), Rv(C(715827801)),
+                Wv("aspirate_well", C(715827800)), Wv("aspirate_well", C(715827850)), Wv("dispense_well", C(715827801)), Wv("dispense_well", C(123456789))]
+    progs.append(h)
     # few destination wells (also after exclusions): the multi-dispense count depends on volume and max_volume only
     lws = [gen.mk_plate("plate", 2, 2, 0, 10, [0, 0, 0, 0])]
     h = gen.header("emit/multidisp-few-wells", dev, Fraction(1), 950, lws, flags={"comp": False, "norm": False, "robot": False})
